@@ -39,6 +39,8 @@ mod scope;
 mod serialize;
 mod units;
 mod value;
+#[cfg(feature = "verif-hooks")]
+pub mod verif_hooks;
 
 use std::error::Error;
 use std::fmt::Write;
